@@ -17,6 +17,7 @@ libpath = os.path.abspath(os.path.join(os.path.dirname(__file__), '../..'))
 if os.path.isdir(libpath):
     sys.path.insert(0, libpath)
 import pyx12
+import pyx12.errors
 import pyx12.x12file
 
 __author__ = pyx12.__author__
@@ -58,7 +59,12 @@ def main():
 
             # no newline translation on the way through: CR and LF may be delimiters or data
             fd_out = tempfile.TemporaryFile(mode='w+', encoding='ascii', newline='')
-            src = pyx12.x12file.X12Reader(file_in)
+            try:
+                src = pyx12.x12file.X12Reader(file_in)
+            except pyx12.errors.X12Error:
+                # no interchange in there: the files named after it are still normalised
+                logger.error('"%s" does not look like an X12 data file' % (file_in))
+                continue
             # one segment per line: a terminator that is itself a line feed already ends the line
             eol = '\n' if args.eol and src.seg_term != '\n' else ''
             for seg_data in src:
